@@ -42,6 +42,30 @@ mod arkp {
         e.hash(&mut r);
         (h.finish(), r.0)
     }
+    /// hashes of containers holding the element (slices, Vec, arrays, tuples, Option): `Hash::hash_slice`
+    /// and the container impls must stay consistent with `==` as well
+    pub fn container_hashes(e: &El, other: &El) -> Vec<(&'static str, u64)> {
+        fn h<T: Hash + ?Sized>(t: &T) -> u64 {
+            let mut s = std::collections::hash_map::DefaultHasher::new();
+            t.hash(&mut s);
+            s.finish()
+        }
+        let (a, o): (Af, Af) = ((*e).into(), (*other).into());
+        vec![
+            ("[Element] (1)", h(&[*e][..])),
+            ("[Element] (2, first)", h(&[*e, *other][..])),
+            ("[Element] (2, second)", h(&[*other, *e][..])),
+            ("[Element] (3, middle)", h(&[*other, *e, *other][..])),
+            ("Vec<Element>", h(&vec![*e, *other, *e])),
+            ("[Element; 2]", h(&[*e, *other])),
+            ("(Element, Element)", h(&(*e, *other))),
+            ("Option<Element>", h(&Some(*e))),
+            ("[AffinePoint] (1)", h(&[a][..])),
+            ("[AffinePoint] (2, second)", h(&[o, a][..])),
+            ("Vec<AffinePoint>", h(&vec![a, o, a])),
+            ("(AffinePoint, Element)", h(&(a, *e))),
+        ]
+    }
     /// all identity predicates of Element: must be all-true or all-false
     pub fn identity_predicates(e: &El) -> Vec<(&'static str, bool)> {
         let a: Af = (*e).into();
@@ -218,6 +242,9 @@ pub fn run(ctx: &Ctx, rec: &mut Rec) {
             }
         }
     });
+    // object-lifecycle programs: ==, Hash and the identity predicates on persistent Element / AffinePoint
+    // objects of every provenance that were mutated in place (affine-only arithmetic included)
+    par(rec, |w, n, rec| crate::life::programs(ctx, rec, P, crate::life::EQHASH, w, n, ctx.scale(1500, 30000), &zoo));
     rec.check_coverage();
 }
 
@@ -299,6 +326,19 @@ fn check_pairs(ctx: &Ctx, rec: &mut Rec, members: &[(&'static str, El, crate::mo
                 }
                 if aeq && hashes[i].1 != hashes[j].1 {
                     rec.violation(format!("{P}:hash:affine"), format!("AffinePoint `{}` == `{}` but their hashes differ", a.0, bb.0), json!({"a": el_json(&a.1), "b": el_json(&bb.1)}));
+                }
+                if leq && aeq && (i + j) % 3 == 0 {
+                    // containers of equal elements must hash equally too (Hash::hash_slice, tuple/Option/Vec impls)
+                    let other = members[(i + 1) % members.len()].1;
+                    rec.form("Hash of containers");
+                    if let (Ok(ca), Ok(cb)) = (guarded(|| container_hashes(&la, &other)), guarded(|| container_hashes(&lb, &other))) {
+                        for ((name, ha), (_, hb)) in ca.iter().zip(cb.iter()) {
+                            rec.evals += 1;
+                            if ha != hb {
+                                rec.violation(format!("{P}:hash:container:{name}"), format!("`{}` == `{}` but {name} containers holding them hash differently", a.0, bb.0), json!({"a": el_json(&a.1), "b": el_json(&bb.1)}));
+                            }
+                        }
+                    }
                 }
             }
         }
